@@ -82,7 +82,8 @@ theorem foldl_merge_entries (chain : List Sect) (m : Table) (n : Nat) :
   induction chain generalizing m with
   | nil => cases h : m.entries n <;> simp [newest, h]
   | cons s r ih =>
-    simp only [List.foldl_cons, ih, mergeInto, Map.orMerge, newest, secTable_entries]
+    rw [List.foldl_cons, ih]
+    simp only [mergeInto, Map.orMerge, newest, secTable_entries]
     cases h : m.entries n with
     | some b => simp
     | none =>
@@ -96,7 +97,8 @@ theorem foldl_merge_ext (chain : List Sect) (m : Table) (n : Nat) :
   induction chain generalizing m with
   | nil => cases h : m.ext n <;> simp [firstComp, h]
   | cons s r ih =>
-    simp only [List.foldl_cons, ih, mergeInto, Map.orMerge, firstComp, secTable_ext]
+    rw [List.foldl_cons, ih]
+    simp only [mergeInto, Map.orMerge, firstComp, secTable_ext]
     cases h : m.ext n with
     | some b => simp
     | none =>
@@ -181,10 +183,9 @@ theorem foldl_insert_latest (hs : List Header) (m : Map Header) (k : Nat) :
       | none =>
         have hnil : r.filter (fun h => decide (h.num = k)) = [] := by
           simpa using hr
-        simp [hnil, Map.insert, hk]
+        simp [hnil, Map.insert]
     · have hk' : ¬ k = h.num := fun e => hk e.symm
-      simp only [hk, decide_false]
-      cases hr : (r.filter (fun h => h.num = k)).getLast? <;> simp [Map.insert, hk']
+      simp only [hk, decide_false, Bool.false_eq_true, if_false, Map.insert, hk']
 
 theorem latestOf_eq (hs : List Header) (k : Nat) :
     latestOf hs k = (hs.filter (fun h => h.num = k)).getLast? := by
